@@ -3,6 +3,7 @@ import ast
 from fractions import Fraction as Fr
 from ..core import Result
 from ..pm import AnalysisError, unparse
+from ..match import Code
 from ..rat import (Ev, Rat, Sym, Poly, fn_eval, rat_eq, Inconclusive, ONE,
                    ZERO, const_of)
 
@@ -168,7 +169,7 @@ def fresnel(ctx):
                                  f'{arm}: unexpected matrix entries {extra}',
                                  construct=f'{arm} extra slots'))
     # indices at the ray wavelength, pre -> n1, post -> n2
-    src = unparse(f.node, 4000)
+    src = Code(P, f)
     if 'n1 = self.material_pre.n(rays.w)' in src and \
             'n2 = self.material_post.n(rays.w)' in src:
         res.ok('n1 = pre.n(w), n2 = post.n(w)')
@@ -403,7 +404,7 @@ def aoi(ctx):
     sym = Sym()
     ev = fn_eval(P, f, sym=sym)
     ac = [a for a, (k, x) in sym.defs.items() if k == 'acos']
-    src = unparse(f.node, 2000)
+    src = Code(P, f)
     want = A('nx') * A('rays.L0') + A('ny') * A('rays.M0') + \
         A('nz') * A('rays.N0')
     ok = False
@@ -427,7 +428,7 @@ def aoi(ctx):
     for mn, flag in (('reflect', 'True'), ('transmit', 'False')):
         m = P.func('BaseCoatingPolarized.' + mn)
         res.saw(m)
-        s = unparse(m.node, 3000)
+        s = Code(P, m)
         if 'aoi = self._compute_aoi(rays, nx, ny, nz)' in s and \
                 f'self.jones.calculate_matrix(rays, reflect={flag}, aoi=aoi)' \
                 in s and 'rays.update(jones)' in s:
